@@ -6,10 +6,10 @@
   own bindings; `Sched = List Tid` is an arbitrary interleaving of atomic steps.  The theorems are for EVERY
   schedule (any length, any order, unfair ones included) and ANY number of threads (`Tid = Nat`, `threads : Tid → …`),
   by induction over the schedule with a locality (frame) argument; the policy is the one the translator reads
-  from `Transpiler.evaluate` (`Cel.Gen.Runtime.namespacePolicy`, bridged in Cel.Bridge.Runtime).
+  from `Transpiler.evaluate` (`Cel.Gen.RuntimeNs.namespacePolicy`, bridged in Cel.Bridge.RuntimeNs).
 -/
 import Cel.Lemmas.RuntimeThreads
-import Cel.Bridge.Runtime
+import Cel.Bridge.RuntimeNs
 namespace Cel.Props.C16
 open Cel Cel.Runtime
 
@@ -45,15 +45,15 @@ theorem noninterference_result_interpreted (pol : NamespacePolicy) (m : MState) 
 /-- **The property for the current source**: the namespace policy regenerated from `Transpiler.evaluate` is the
 per-call one, hence every thread — compiled or interpreted — returns what it returns alone, under every
 interleaving. -/
-theorem noninterference (h : Cel.Gen.Runtime.namespacePolicy = .perCall) (m : MState) (s : Sched) (t : Tid) (n : Nat) (v : CV)
+theorem noninterference (h : Cel.Gen.RuntimeNs.namespacePolicy = .perCall) (m : MState) (s : Sched) (t : Tid) (n : Nat) (v : CV)
     (halone : (runAlone (m.threads t) n).out = some v) (hcomplete : n ≤ s.count t) :
-    obsOf Cel.Gen.Runtime.namespacePolicy m s t = some v := by
+    obsOf Cel.Gen.RuntimeNs.namespacePolicy m s t = some v := by
   rw [h]; exact noninterference_result m s t n v halone hcomplete
 
 theorem noninterference_current (m : MState) (s : Sched) (t : Tid) (n : Nat) (v : CV)
     (halone : (runAlone (m.threads t) n).out = some v) (hcomplete : n ≤ s.count t) :
-    obsOf Cel.Gen.Runtime.namespacePolicy m s t = some v :=
-  noninterference Cel.Bridge.Runtime.namespace_is_perCall m s t n v halone hcomplete
+    obsOf Cel.Gen.RuntimeNs.namespacePolicy m s t = some v :=
+  noninterference Cel.Bridge.RuntimeNs.namespace_is_perCall m s t n v halone hcomplete
 
 /-- a thread's steps never change another thread's state, under either policy (the interference of the shared
 policy goes through the shared namespace only) -/
